@@ -3,7 +3,7 @@
    command-side handler; event-side handlers release it with the HOLD_EXIT codes), `fault = false` is
    discharged by C03 in the supported domain.  Proofs: Lemmas_C14, Lemmas_Ctl, EvSkelSim. *)
 From Coq Require Import List NArith ZArith Bool Arith.
-From CatV Require Import Bytes Defs Codec Fsm Skel SkelInv SkelSim EvSkel EvSkelSim Lemmas_Ctl Lemmas_C14.
+From CatV Require Import Bytes Defs Codec Fsm Skel SkelInv SkelSim EvSkel EvSkelSim Lemmas_Ctl Lemmas_C03 Lemmas_Domain Lemmas_C14.
 Import ListNotations.
 
 Section C14.
@@ -113,3 +113,34 @@ Print Assumptions C14_release_answers_once.
 Print Assumptions C14_release_result.
 Print Assumptions C14_api_hold_exit.
 Print Assumptions C14_api_is_hold.
+
+(* ---------------------------------------------------------------------------------------------
+   The same, unconditionally, in the supported domain: C03 (Lemmas_C03.C03_no_fault) shows that the
+   fault flag is never raised for descriptors satisfying wf_desc, events naming pool commands
+   (valid_op / valid_icall) — so the hypothesis `fault = false` above is discharged. *)
+Section InDomain.
+Variable D : desc.
+Variables ioS muS hS : Type.
+Variable io_read : ioS -> ioS * option N.
+Variable io_write : ioS -> N -> ioS * bool.
+Variable mu_lock : muS -> muS * bool.
+Variable mu_unlock : muS -> muS * bool.
+Variable h_call : hS -> hreq -> hS * hres.
+Hypothesis no_uhold : forall hs q, unsol_req q = true -> r_code (snd (h_call hs q)) <> RC_HOLD.
+Hypothesis handlers_valid : forall hs q, Forall (valid_icall D) (r_calls (snd (h_call hs q))).
+Notation st := (Fsm.st ioS muS hS).
+Notation run := (Fsm.run D ioS muS hS io_read io_write mu_lock mu_unlock h_call).
+Notation reach m x mx h ops := (run (mkWorld ioS muS hS (init_state D m) x mx h []) ops).
+Notation JD := (J_in_domain D ioS muS hS io_read io_write mu_lock mu_unlock h_call no_uhold handlers_valid).
+
+Theorem C14_in_domain : forall m x mx h ops,
+  wf_desc D m -> Forall (valid_op D) ops ->
+  let s := st (reach m x mx h ops) in
+  (k_hold (k s) = true <-> k_state (k s) = CS_HOLD) /\
+  (k_state (k s) = CS_HOLD -> gL s = S (gR s) /\ gS s = gR s).
+Proof.
+  intros m x mx h ops Hwf Hops s. destruct (JD m x mx h ops Hwf Hops) as [_ HJ]. fold s in HJ.
+  split; [exact (J_hold_iff s HJ) | exact (J_held_no_result s HJ)].
+Qed.
+End InDomain.
+Print Assumptions C14_in_domain.
